@@ -168,7 +168,7 @@ fn check_program(ctx: &mut Ctx, id: &str, prog: &str, c: &Cfg, n_lits_expected: 
             // reduce to the single literal for the replay file
             let form = if x.starts_with('"') { "dq" } else if x.starts_with('\'') { "sq" } else { "long" };
             let feature = escape_feature(x);
-            let sg = format!("C04:string:{}:{}:{}:{}", form, feature, c.quote_style, c.line_endings);
+            let sg = format!("C04:string:{}:{}", form, feature);
             let single = format!("local v = {x}\n");
             ctx.finding(
                 "literal-value",
